@@ -14,7 +14,10 @@ LEVEL_TEXT = ("Clause-level static rules: (a) bound-polarity typing of interval<
               "infinity / threshold} under the comparison of the right direction; (b) integer shifts and divisions are delegated to "
               "primitives with the matching rounding (arithmetic shift right only through the floor primitive >>, logical shift "
               "right through >> only under a non-negativity guard, shift left by multiplication); (c) lattice operators of every "
-              "scalar class answer the bottom/top cases correctly. Division, remainder, bitwise ranges, congruences and disjunctive intervals are NOT decided.")
+              "scalar class answer the bottom/top cases correctly; (d) shape rules added for replayed defects: the corner form of the integer "
+              "interval division (r1d), sign division (r6), sorted-list / TOP-BOT typestate / normalize-sentinel rules of dis_interval "
+              "(r5, r7, r9), no truncating % on congruence residues (r8). Remainder, bitwise ranges and the numeric content of congruence "
+              "and disjunctive-interval arithmetic are otherwise NOT decided.")
 ASSUMPTIONS = ["bound<Number> arithmetic (+, -, *, min, max with infinities) is correct", "z_number primitives keep their meaning (C20)"]
 
 II = "include/crab/domains/interval_impl.hpp"
